@@ -169,6 +169,9 @@ def _fg_completion(F, seed):
     lst = []
     if seed is None:
         seed = np.random.randint(2, size=len(imag_roots) + len(real_roots))
+    elif len(seed) < len(imag_roots) + len(real_roots):
+        raise CompletionError(
+            "Completion Failed. 1 - F * ~F has more roots inside the unit circle than the seed has entries")
     for i, root in enumerate(imag_roots):
         if seed[i]:
             root = 1 / root
